@@ -72,12 +72,16 @@ def insertSorted (x : Int) : List Int → List Int
 /-- `std::sort` (result is the unique ascending arrangement) -/
 def sortInts (l : List Int) : List Int := l.foldr insertSorted []
 
-/-- `std::inplace_merge(first, middle, last)`: stable; from the second run only when strictly smaller -/
+/-- inner loop of the merge: the first run is `al = a :: l`, `recL` merges `l` with what is left of the second run -/
+def mergeAux (a : Int) (recL : List Int → List Int) (al : List Int) : List Int → List Int
+  | [] => al
+  | b :: r => if b < a then b :: mergeAux a recL al r else a :: recL (b :: r)
+
+/-- `std::inplace_merge(first, middle, last)`: stable; from the second run only when strictly smaller.
+(Structural recursion on the first run, so that the kernel can evaluate it.) -/
 def mergeRuns : List Int → List Int → List Int
-  | [], r => r
-  | a :: l, [] => a :: l
-  | a :: l, b :: r => if b < a then b :: mergeRuns (a :: l) r else a :: mergeRuns l (b :: r)
-termination_by l r => l.length + r.length
+  | [] => fun r => r
+  | a :: l => fun r => mergeAux a (mergeRuns l) (a :: l) r
 
 /-- `promote_evens_or_odds(from, to, odds, dst)`: every second item starting at index 0 (evens) or 1 (odds) -/
 def evens : List Int → List Int
@@ -92,11 +96,12 @@ def odds : List Int → List Int
 
 def promote (l : List Int) (coin : Bool) : List Int := if coin then odds l else evens l
 
+def trailingOnesF : Nat → Nat → Nat
+  | 0, _ => 0
+  | f + 1, n => if n % 2 = 1 then 1 + trailingOnesF f (n / 2) else 0
+
 /-- number of trailing one bits = `count_trailing_zeros_in_u64(~state_)` (for state < 2^64 - 1) -/
-def trailingOnes (n : Nat) : Nat :=
-  if h : n % 2 = 1 then 1 + trailingOnes (n / 2) else 0
-termination_by n
-decreasing_by omega
+def trailingOnes (n : Nat) : Nat := trailingOnesF (n + 1) n
 
 /-! ### compactor operations -/
 
